@@ -48,6 +48,47 @@ func TestGovcReplay(t *testing.T) {
 			}
 		}
 	}
+	// the placement depends on the set of servers, not on the order they are listed in: the same
+	// servers listed in natural order, in lexicographic order (.1 .10 .11 .2 ...), reversed and rotated
+	for _, n := range []int{2, 3, 11, 12, 25} {
+		var natural []string
+		for i := 1; i <= n; i++ {
+			natural = append(natural, fmt.Sprintf("127.0.0.%d:11211", i))
+		}
+		lexi := append([]string(nil), natural...)
+		for i := range lexi {
+			for j := i + 1; j < len(lexi); j++ {
+				if lexi[j] < lexi[i] {
+					lexi[i], lexi[j] = lexi[j], lexi[i]
+				}
+			}
+		}
+		rev := append([]string(nil), natural...)
+		for i, j := 0, len(rev)-1; i < j; i, j = i+1, j-1 {
+			rev[i], rev[j] = rev[j], rev[i]
+		}
+		rot := append(append([]string(nil), natural[n/2:]...), natural[:n/2]...)
+		ref := &MemcachedJumpHashSelector{}
+		if err := ref.SetServers(natural...); err != nil {
+			continue
+		}
+		for name, list := range map[string][]string{"lexicographic": lexi, "reversed": rev, "rotated": rot} {
+			s := &MemcachedJumpHashSelector{}
+			if err := s.SetServers(list...); err != nil {
+				continue
+			}
+			for _, k := range keys {
+				a, err1 := ref.PickServer(k)
+				b, err2 := s.PickServer(k)
+				if err1 != nil || err2 != nil {
+					continue
+				}
+				if a.String() != b.String() && len(msgs) < 3 {
+					msgs = append(msgs, fmt.Sprintf("%d servers listed in %s order: key %.20q goes to %s, with the same servers in natural order to %s", n, name, k, b.String(), a.String()))
+				}
+			}
+		}
+	}
 	if len(msgs) > 0 {
 		fmt.Println("REPLAY: reproduced:", strings.Join(msgs, "; "))
 		t.Fail()
